@@ -178,6 +178,10 @@ def join(a, b, depth=0):
     items = a.items if (a.items is not None and b.items is not None and len(a.items) == len(b.items) and a.kinds == b.kinds == frozenset(["tuple"])) else None
     if items is not None:
         items = tuple(join(x, y, depth + 1) for x, y in zip(a.items, b.items))
+    elif "tuple" in a.kinds and "tuple" not in b.kinds and a.items is not None:
+        items = a.items         # only one side is a tuple at all: its components describe the tuple alternative
+    elif "tuple" in b.kinds and "tuple" not in a.kinds and b.items is not None:
+        items = b.items
     out = AV(kinds, elem=elem, vals=vals, pos=pos, nonempty=nonempty, big=a.big or b.big,
              integral_float=(a.integral_float or "float" not in a.kinds) and (b.integral_float or "float" not in b.kinds) and ("float" in kinds),
              strs=strs, schema=schema, keys_of=keys_of or frozenset(), items=items,
